@@ -505,8 +505,16 @@ func (c *DefaultCtx) Format(handlers ...ResFmt) error {
 	c.Vary(HeaderAccept)
 
 	if c.Get(HeaderAccept) == "" {
-		// handler-supplied: Set replaces CR/LF, SetContentType would store them verbatim
-		c.Set(HeaderContentType, handlers[0].MediaType)
+		// the first offer is used; "default" marks the fallback handler, it is not a media type
+		for _, h := range handlers {
+			if h.MediaType == "default" {
+				continue
+			}
+			// handler-supplied: Set replaces CR/LF, SetContentType would store them verbatim
+			c.Set(HeaderContentType, h.MediaType)
+			return h.Handler(c)
+		}
+		// only a fallback handler was given
 		return handlers[0].Handler(c)
 	}
 
